@@ -3,6 +3,8 @@ package c09
 import (
 	"context"
 	"fmt"
+	"io"
+	"os"
 	"sort"
 	"strings"
 	"testing"
@@ -278,4 +280,113 @@ func TestC09_TraversalMatchesPuts(t *testing.T) {
 		r.Case(evid.Hash64(c), n >= 3 || c.Dir, cls...)
 		r.Sample(c)
 	})
+}
+
+
+// blockReader yields n full template blocks (tags cycle through a short pattern) without holding them all.
+type blockReader struct {
+	tags []int
+	n, i int
+	cur  []byte
+}
+
+func (b *blockReader) Read(p []byte) (int, error) {
+	if len(b.cur) == 0 {
+		if b.i >= b.n {
+			return 0, io.EOF
+		}
+		b.cur = nodelite.Block(b.tags[b.i%len(b.tags)])
+		b.i++
+	}
+	k := copy(p, b.cur)
+	b.cur = b.cur[k:]
+	return k, nil
+}
+
+// TestC09_DeepTree (thorough tier only): files whose chunk count sits at the boundaries of a full
+// intermediate chunk (8192 references): 8192, 8193 (a lone data chunk carried up next to a full
+// intermediate chunk) and 8194 chunks. The content cycles through a few templates, so the store
+// de-duplicates it, but the tree has the real three-level shape.
+func TestC09_DeepTree(t *testing.T) {
+	r := evid.Get(id)
+	evid.Finish(t, r)
+	if !evid.Thorough() || os.Getenv("VERIF_SHARD") > "0" {
+		t.Skip("deep trees run in the thorough tier, shard 0 only")
+	}
+	for _, n := range []int{8193, 8192, 8194} {
+		nodeSeq++
+		net := nodelite.NewNet()
+		nd, err := net.NewNode(nodelite.AddrN(nodeSeq), nodelite.Options{})
+		if err != nil {
+			t.Fatal(err)
+		}
+		nd.Rec.AddrOnly = true
+		nd.Rec.Start()
+		ref, err := nd.UploadReader("deep.bin", &blockReader{tags: []int{0, 1, 2, 1, 3}, n: n})
+		puts := nd.Rec.Stop()
+		if err != nil {
+			nd.Close()
+			t.Fatalf("deep upload of %d chunks: %v", n, err)
+		}
+		written := map[string]bool{}
+		for _, p := range puts {
+			written[p.Addr] = true
+		}
+		trav := map[string]bool{}
+		if err := nd.Trav.Traverse(context.Background(), ref, func(a boson.Address) error { trav[a.String()] = true; return nil }); err != nil {
+			t.Fatalf("%s", evid.Violation(id, "C09/traverse-error", fmt.Sprintf("%d chunks: %v", n, err)))
+		}
+		if a, b := diff(trav, written); len(a)+len(b) > 0 {
+			t.Fatalf("%s", evid.Violation(id, "C09/traverse-differs", fmt.Sprintf("file of %d chunks: traversal-only %v, written-only %v", n, a, b)))
+		}
+		data, _, err := nd.Trav.GetChunkHashes(context.Background(), ref, nil)
+		if err != nil {
+			t.Fatalf("%s", evid.Violation(id, "C09/chunkhashes-error", fmt.Sprintf("%d chunks: %v", n, err)))
+		}
+		cover := map[string]bool{}
+		total := 0
+		for _, l := range data {
+			total += len(l)
+			for _, a := range l {
+				s := boson.NewAddress(a).String()
+				if !written[s] {
+					t.Fatalf("%s", evid.Violation(id, "C09/data-list-extra", fmt.Sprintf("file of %d chunks: data list holds %s which was never written", n, s)))
+				}
+				cover[s] = true
+			}
+		}
+		if total != n {
+			t.Fatalf("%s", evid.Violation(id, "C09/data-list-length", fmt.Sprintf("file of %d chunks: data lists hold %d entries", n, total)))
+		}
+		pyr, err := nd.Trav.GetPyramid(context.Background(), ref)
+		if err != nil {
+			t.Fatalf("%s", evid.Violation(id, "C09/pyramid-error", fmt.Sprintf("%d chunks: %v", n, err)))
+		}
+		for k := range pyr {
+			if !written[strings.ToLower(k)] {
+				t.Fatalf("%s", evid.Violation(id, "C09/pyramid-extra", fmt.Sprintf("file of %d chunks: pyramid holds %s which was never written", n, k)))
+			}
+			cover[strings.ToLower(k)] = true
+		}
+		// the data chunks themselves must all be in the data lists, the rest in the pyramid
+		if _, miss := diff(cover, written); len(miss) > 0 {
+			t.Fatalf("%s", evid.Violation(id, "C09/cover-missing", fmt.Sprintf("file of %d chunks: data lists + pyramid miss written chunks %v", n, miss)))
+		}
+		// a peer receiving this pyramid must be able to rebuild the same data lists from it
+		peerN, _ := net.NewNode(nodelite.AddrN(nodeSeq+500000), nodelite.Options{})
+		pdata, _, perr := peerN.Trav.GetChunkHashes(context.Background(), ref, pyr)
+		if perr != nil {
+			t.Fatalf("%s", evid.Violation(id, "C09/pyramid-not-self-contained", fmt.Sprintf("file of %d chunks: a node given the pyramid cannot list the data chunks: %v", n, perr)))
+		}
+		pt := 0
+		for _, l := range pdata {
+			pt += len(l)
+		}
+		if pt != n {
+			t.Fatalf("%s", evid.Violation(id, "C09/pyramid-data-list-length", fmt.Sprintf("file of %d chunks: data lists rebuilt from the pyramid hold %d entries", n, pt)))
+		}
+		peerN.Close()
+		nd.Close()
+		r.Case(evid.Hash64("deep", n), true, fmt.Sprintf("deep-%d-chunks", n))
+	}
 }
